@@ -707,8 +707,16 @@ class CSSParser:
                 _s2 += nth_parts.group('b')
             else:
                 _s2 = '0'
-            s1 = int(_s1, 10)
-            s2 = int(_s2, 10)
+            try:
+                s1 = int(_s1, 10)
+                s2 = int(_s2, 10)
+            except ValueError:
+                # The interpreter refuses to convert absurdly long digit strings
+                raise SelectorSyntaxError(
+                    f"Invalid numeric value in '{mdict['name']}' at position {m.start(0)}",
+                    self.pattern,
+                    m.start(0)
+                ) from None
 
         pseudo_sel = mdict['name']
         if postfix == '_child':
